@@ -92,22 +92,7 @@ func propC02(c *Ctx, r *Report) {
 	r.check(metaOK, "C02-R4/height-record", "pn_metadata written on InsertSynced's tx", c.pos(is.Pos()), "REPLACE INTO pn_metadata on the tx parameter", "pn_metadata write missing or not on the tx parameter")
 
 	// R5 schema
-	r.rule("C02-R5/height-once", 2, "a height can be recorded only once")
-	t := cat.Tables["pn_sync_version"]
-	keyed := false
-	if t != nil {
-		for _, u := range t.Uniques {
-			if len(u) == 1 && u[0] == "height" {
-				keyed = true
-			}
-		}
-	}
-	r.check(keyed, "C02-R5/height-once", "pn_sync_version keyed by height", "-", "PRIMARY KEY/UNIQUE(height)", "pn_sync_version has no unique key on height: a block could be applied twice unnoticed")
-	for _, st := range cat.Stmts {
-		if st.Table == "pn_sync_version" && st.isWrite() && st.Verb != "CREATE" {
-			r.check(st.Verb == "INSERT" && st.Conflict == "", "C02-R5/height-once", "pn_sync_version written by plain INSERT in "+fname(st.Fn), c.ipos(st.Site), "plain INSERT", fmt.Sprintf("%s %s lets a height be recorded again", st.Verb, st.Conflict))
-		}
-	}
+	ruleHeightOnce(c, cat, r, "C02-R5/height-once")
 
 	// R6 start-up resume
 	r.rule("C02-R6/resume", 3, "NewPegnetd resumes from the persisted height")
@@ -189,4 +174,26 @@ func propC02(c *Ctx, r *Report) {
 			fmt.Sprintf("resumes from the record=%v, starts fresh at PegnetActivation=%v, fails=%v", oc.wantPersisted, oc.wantNew, oc.wantErr),
 			fmt.Sprintf("resumes from the record=%v (want %v), starts fresh=%v at PegnetActivation=%v (want %v), returns %s (want error=%v): a node that resumes from the wrong height re-applies or skips blocks of an existing ledger", gotPersisted, oc.wantPersisted, gotNew, actOK, oc.wantNew, errs, oc.wantErr))
 	}
+}
+
+// ruleHeightOnce: pn_sync_version is keyed by height and written by a plain INSERT (shared with C19: the legacy
+// back-fill relies on the key conflict to leave genuine version rows alone).
+func ruleHeightOnce(c *Ctx, cat *SQLCat, r *Report, rule string) {
+	r.rule(rule, 2, "a height can be recorded only once")
+	t := cat.Tables["pn_sync_version"]
+	keyed := false
+	if t != nil {
+		for _, u := range t.Uniques {
+			if len(u) == 1 && u[0] == "height" {
+				keyed = true
+			}
+		}
+	}
+	r.check(keyed, rule, "pn_sync_version keyed by height", "-", "PRIMARY KEY/UNIQUE(height)", "pn_sync_version has no unique key on height: a block could be applied twice unnoticed")
+	for _, st := range cat.Stmts {
+		if st.Table == "pn_sync_version" && st.isWrite() && st.Verb != "CREATE" {
+			r.check(st.Verb == "INSERT" && st.Conflict == "", rule, "pn_sync_version written by plain INSERT in "+fname(st.Fn), c.ipos(st.Site), "plain INSERT", fmt.Sprintf("%s %s lets a height be recorded again", st.Verb, st.Conflict))
+		}
+	}
+
 }
